@@ -67,7 +67,8 @@ Section Deep.
     do sg <- nsig cs h n;
     let st' := n :: st in
     do t <- (match sg_task sg with
-             | Some t => do r <- rec st' (VRef t); Ok (Some (fst r), snd r)
+             | Some t => do r <- rec st' (VRef t);
+                         Ok (match index_of t st' with Some _ => None | None => Some (fst r) end, snd r)
              | None => Ok (None, O)
              end);
     do a <- dargs (rec st') (cty (sg_tid sg)) (sg_args sg);
